@@ -20,7 +20,7 @@ static rc::Gen<Tree> genTree(int depth, int budget) {
         if (k == 0) return Tree::symbol(*genSymbol());
         if (k == 1) return Tree::integer(*rc::gen::weightedOneOf<uint64_t>({{3, vprc::uni<uint64_t>(0, 300)}, {2, rc::gen::arbitrary<uint64_t>()}, {1, rc::gen::element<uint64_t>(0, 9, 10, 15, 16, 255, 256, 0xABCDEFull, 0xffffffffffffffffull, 9999999999999999999ull)}}));
         if (k == 3) return Tree::list();
-        size_t n = *vprc::uni<size_t>(0, (size_t)std::min(6, budget - 1));
+        size_t n = *rc::gen::weightedOneOf<size_t>({{9, vprc::uni<size_t>(0, (size_t)std::min(6, budget - 1))}, {1, vprc::uni<size_t>(0, (size_t)std::max(1, budget - 1))}});
         std::vector<Tree> items;
         int left = budget - 1;
         for (size_t i = 0; i < n && left > 0; i++) { Tree c = *genTree(depth - 1, std::max(1, left / (int)(n - i))); left -= (int)c.nodes(); items.push_back(std::move(c)); }
@@ -79,7 +79,7 @@ static void run() {
                        "whitespace (blank, tab, newline, CR, FF, VT) and random decimal / #x lower / upper / mixed-case digits, leading and trailing whitespace";
     auto gen = rc::gen::exec([]() {
         Case c;
-        c.tree = *genTree(8, *vprc::uni<int>(1, 200));
+        c.tree = *genTree(8, *rc::gen::weightedOneOf<int>({{8, vprc::uni<int>(1, 200)}, {1, vprc::uni<int>(200, 1500)}}));
         c.choices = *rc::gen::container<std::vector<unsigned>>(rc::gen::arbitrary<unsigned>());
         size_t ci = 0; std::string body;
         render(c.tree, c.choices, ci, body);
